@@ -1,16 +1,25 @@
 #!/bin/bash
 # usage: tools/seedtest.sh <seeded-dir> <property> [<property>...]
-# Applies the seeded change to /repo, runs the quick checks, undoes it.
+# Applies the seeded change to a scratch worktree of /repo (never to /repo
+# itself), runs the checks against it and removes the worktree. Evidence and
+# replay files of these runs go to a scratch directory, so the files of the
+# real tree stay as they are. TIER=thorough and VERIF_SEED=n are honoured.
 set -u
+V=$(dirname "$(dirname "$(realpath "$0")")")
 dir=$(realpath "$1"); shift
-cd /repo || exit 2
-if ! git diff --quiet; then echo "/repo has uncommitted changes"; exit 2; fi
-git apply "$dir/patch.diff" || { echo "patch does not apply"; exit 2; }
-rm -rf /tmp/evidence.bak && cp -r /verif/evidence /tmp/evidence.bak
-trap 'git -C /repo checkout -- . ; rm -rf /verif/evidence; mv /tmp/evidence.bak /verif/evidence; rm -f /verif/replays/C*.json' EXIT
-cd /verif
+name=$(basename "$dir")
+work=$(mktemp -d /tmp/seedtest-$name-XXXXXX)
+trap 'git -C /repo worktree remove --force "$work/repo" 2>/dev/null; rm -rf "$work"' EXIT
+git -C /repo worktree add --detach "$work/repo" HEAD -q || exit 2
+git -C "$work/repo" apply "$dir/patch.diff" || { echo "patch does not apply: $name"; exit 2; }
+rc=0
 for p in "$@"; do
-  echo "=== $p against $(basename $dir)"
-  VERIF_SEED=${VERIF_SEED:-1} ./check $p ${TIER:-quick} 2>&1 | grep -E "^(VIOLATION|INCONCLUSIVE|property=|KNOWN)" | cut -c1-220
+  echo "=== $p against $name"
+  VERIF_REPO="$work/repo" VERIF_EVIDENCE_OUT="$work/evidence" VERIF_REPLAY_OUT="$work/replays" VERIF_SEED=${VERIF_SEED:-1} \
+    "$V/check" $p ${TIER:-quick} 2>&1 | grep -E "^(VIOLATION|INCONCLUSIVE|property=|KNOWN|BUILD)" | cut -c1-220
   echo "exit=${PIPESTATUS[0]}"
+  for f in "$work"/replays/*.json; do
+    [ -e "$f" ] && python3 -c "import json,sys;d=json.load(open('$f'));print('  sig',d.get('sig'))"
+  done
+  rm -rf "$work/replays"
 done
